@@ -35,9 +35,9 @@ import (
 
 type p2pStub struct{ p2p.Service }
 
-func (p2pStub) Disconnect(boson.Address, string) error                  { return nil }
-func (p2pStub) NetworkStatus() p2p.NetworkStatus                        { return p2p.NetworkStatusAvailable }
-func (p2pStub) Blocklist(boson.Address, time.Duration, string) error    { return nil }
+func (p2pStub) Disconnect(boson.Address, string) error               { return nil }
+func (p2pStub) NetworkStatus() p2p.NetworkStatus                     { return p2p.NetworkStatusAvailable }
+func (p2pStub) Blocklist(boson.Address, time.Duration, string) error { return nil }
 
 type discStub struct{ discovery.Driver }
 
@@ -55,8 +55,8 @@ func (abStub) Remove(boson.Address) error { return nil }
 type subStub struct{}
 
 func (subStub) Subscribe(subscribe.INotifier, string, string, string) error { return nil }
-func (subStub) Publish(string, string, string, interface{}) error            { return nil }
-func (subStub) PublishArray(string, string, string, []interface{}) error     { return nil }
+func (subStub) Publish(string, string, string, interface{}) error           { return nil }
+func (subStub) PublishArray(string, string, string, []interface{}) error    { return nil }
 
 func fullMode() aurora.Model { return aurora.NewModel().SetMode(aurora.FullNode) }
 func bootMode() aurora.Model {
@@ -136,8 +136,8 @@ func checkDepth(bins []binCount, radius, depth, quick int) (string, string) {
 // ---------------------------------------------------------------- part A
 
 type jbin struct {
-	Bin   int    `json:"bin"`
-	Unr   []bool `json:"unreachable"` // one entry per peer of the bin
+	Bin int    `json:"bin"`
+	Unr []bool `json:"unreachable"` // one entry per peer of the bin
 }
 
 type jdepth struct {
